@@ -219,6 +219,21 @@ class ExprMixin:
             return True
         # quantified assumptions are left out: they only make the check slower (dropping
         # assumptions can only make fewer paths look infeasible - sound for pruning)
+        # a model found for a prefix of this path may already satisfy what was added since
+        # (cheap evaluation instead of a solver call; most forks have two feasible sides)
+        if st.model is not None:
+            m, npc, nf = st.model
+            if npc <= len(st.pc) and nf <= len(st.facts):
+                new = [t for t in list(st.pc[npc:]) + list(st.facts[nf:]) if not _has_quantifier(t)]
+                if extra is not None:
+                    new.append(extra)
+                try:
+                    if all(z3.is_true(m.eval(t, model_completion=True)) for t in new):
+                        if extra is None:
+                            st.model = (m, len(st.pc), len(st.facts))
+                        return True
+                except z3.Z3Exception:
+                    pass
         terms = [t for t in list(st.pc) + list(st.facts) if not _has_quantifier(t)]
         terms.extend(self.instantiate_foralls(st))
         if extra is not None:
@@ -229,7 +244,13 @@ class ExprMixin:
         s.set('timeout', timeout_ms or self.feas_timeout_ms)
         s.add(*terms)
         self.feas_checks += 1
-        return s.check() != z3.unsat
+        r = s.check()
+        if r == z3.sat and extra is None:
+            try:
+                st.model = (s.model(), len(st.pc), len(st.facts))
+            except z3.Z3Exception:
+                st.model = None
+        return r != z3.unsat
 
     # ------------------------------------------------------------------
     # heap
